@@ -218,6 +218,19 @@ def run(F, R, tier, cfg):
     entries = [CHECK]
     for suf in ("create_scmp_error", "create_inbound_scmp_error", "observed_packet_meta", "outbound_packet_meta"):
         entries += [p for p in F.fns_named(suf) if p.startswith("snap_dataplane::") and not T.is_test_support(p)]
+    # every snap-dataplane function the receive closure applies to the filter's result (the accepted
+    # view or the rejection carrying the offending view) runs on every datagram: it is an entry too
+    derived = set()
+    for (p, c) in T.call_sites(F, lambda n: n == CHECK, crates=["snap_dataplane"]):
+        pb = F.body(p)
+        for c2 in pb.calls:
+            if not c2.callee or not c2.callee.startswith("snap_dataplane::") or c2.callee == CHECK:
+                continue
+            if any(("fn:" + CHECK) in tokens(pb.origin(a)) for a in c2.args):
+                if F.has_body(c2.callee):
+                    derived.add(c2.callee)
+    R.floor("PANIC-entries", len(derived), 3, "snap-dataplane functions applied to the filter result in the receive closure")
+    entries += sorted(derived)
     ENC.install()
     PN.check_entries(F, R, "C08", sorted(set(entries)), cfg)
     ENC.hostlen_rule(F, R)
